@@ -131,6 +131,11 @@ class _Canon:
       if seen:
         return {'ref': n}
       return {'#': n, 'box': [self.go(e) for e in x.children]}
+    if isinstance(x, stubmod.LateBox):
+      n, seen = self._number(x)
+      if seen:
+        return {'ref': n}
+      return {'#': n, 'late': [self.go(e) for e in x.children]}
     if isinstance(x, stubmod.Rec):
       n, seen = self._number(x)
       if seen:
